@@ -115,10 +115,13 @@ Definition judge_c17 (g : cfg) (u : unit) (o : obs) : list N * unit :=
           (* a kind the peer of this role never sends: protocol error, never delivered or acted upon *)
           if existsb is_notify (ob_evs o) then ([1; t], u)
           else if match errors (ob_evs o) with [] => true | _ => false end then ([2; t], u)
+          (* a kind that exists (1..15) is reported as a PROTOCOL error; the reserved nibble 0 is malformed *)
+          else if (1 <=? t) && (t <=? 15) && negb (match g_role g with RAny => true | _ => false end)
+                  && negb (existsb (N.eqb E_PROTOCOL) (errors (ob_evs o))) then ([4; t], u)
           else if negb (nlist_eqb (proj_state SESSION_FIELDS pre) (proj_state SESSION_FIELDS (ob_post o))) then ([3; t], u)
           else ([], u)
-        else if status_eqb (c_status pre) Connected && ((t =? 1) || (t =? 2)) then
-          (* CONNECT / CONNACK on an established connection *)
+        else if ((t =? 1) && negb (status_eqb (c_status pre) Disconnected)) || ((t =? 2) && status_eqb (c_status pre) Connected) then
+          (* CONNECT / CONNACK on an established connection (for a CONNECT: also while its predecessor awaits the CONNACK) *)
           if existsb is_notify (ob_evs o) then ([11; t], u)
           else if match errors (ob_evs o) with [] => true | _ => false end then ([12; t], u)
           else if negb (nlist_eqb (proj_state SESSION_FIELDS pre) (proj_state SESSION_FIELDS (ob_post o))) then ([13; t], u)
